@@ -675,7 +675,7 @@ def check_call(res, spec, origin, form, visname, vis, kwname, kw, ndir, Q=None):
         s = dict(spec)
         s['visual'] = vis
         try:
-            reg = G.build(s)
+            reg = G.build_routed(s)       # every 4th spec (by hash) is reached by re-assignment
         except Exception as exc:
             res.violation(ID, 'build_failed', case, f'could not construct region: {type(exc).__name__}: {exc}')
             return
